@@ -1,0 +1,30 @@
+//go:build verif
+
+// Contracts for package timednetconn (comment-only; read by /verif/govc).
+// The ghost log records every call on the wrapped net.Conn, in order.
+// logDeadlineFresh(i, d): entry i is a Set*Deadline whose argument is
+// time.Now().Add(d) for a time.Now() taken during this call, after the
+// previous logged call.
+
+package timednetconn
+
+//@ func (*conn).Read returns (n, err)
+//@   requires c != nil && c.wrapped != nil
+//@   ensures  [armed-first] logLen() >= 1 && logCallee(0, "net.Conn.SetReadDeadline") && logDeadlineFresh(0, c.readTimeout)
+//@   ensures  [deadline-error] logErr(0) != nil ==> logLen() == 1 && n == 0 && err == logErr(0)
+//@   ensures  [then-read] logErr(0) == nil ==> logLen() == 2 && logCallee(1, "net.Conn.Read") && logIsBuf(1, buf) && n == logRet(1) && err == logErr(1)
+//@   canary   logLen() == 1
+//@   modifies buf[:], ghost:log
+
+//@ func (*conn).Write returns (n, err)
+//@   requires c != nil && c.wrapped != nil
+//@   ensures  [armed-first] logLen() >= 1 && logCallee(0, "net.Conn.SetWriteDeadline") && logDeadlineFresh(0, c.writeTimeout)
+//@   ensures  [deadline-error] logErr(0) != nil ==> logLen() == 1 && n == 0 && err == logErr(0)
+//@   ensures  [then-write] logErr(0) == nil ==> logLen() == 2 && logCallee(1, "net.Conn.Write") && logIsBuf(1, buf) && n == logRet(1) && err == logErr(1)
+//@   canary   logLen() == 1
+//@   modifies ghost:log
+
+//@ func (*conn).Close
+//@   requires c != nil && c.wrapped != nil
+//@   ensures  logLen() == 1 && logCallee(0, "net.Conn.Close") && err == logErr(0)
+//@   modifies ghost:log
